@@ -184,7 +184,7 @@ CLAIMS['C11'] = dict(
           "readers (explicit compositions, 1-byte, cyclic patterns, interrupts, a hard failure at every offset with 7 "
           "kinds, >1 MiB byte vectors in odd chunks), three reader entry points, std and no_std io; oracle: equals "
           "the slice result, failures inside the value come back unchanged, failures beyond it are invisible. "
-          "Partial: the hard-failure clauses are tied by oracle + correspondence, not yet by theorem. Hard failures (scripts with a stop that is not Interrupted/UnexpectedEof; closed forms readExactLoop_stop / bulkLoopI_stop; cut-off simulation de_simB over the universe): C11_hard_failure (a failure at an offset inside the value is returned with kind and message unchanged), C11_failure_after_value (a failure the decoder never reaches is invisible and the reader stands at the end of the value), C11_failure_or_same_error, C11_failure_general."),
+          "Partial: the hard-failure clauses are tied by oracle + correspondence, not yet by theorem. Hard failures (scripts with a stop that is not Interrupted/UnexpectedEof; closed forms readExactLoop_stop / bulkLoopI_stop; cut-off simulation de_simB over the universe): C11_hard_failure (a failure at an offset inside the value is returned with kind and message unchanged), C11_failure_after_value (a failure the decoder never reaches is invisible and the reader stands at the end of the value), C11_failure_or_same_error, C11_failure_general. C11_any_reader: the scripted readers are one instance of a general statement - any reader whose read_exact / byte-vector read answer like the slice's decodes every type like the slice."),
     technique="Lean 4 proof (loop closed forms + reader simulation by induction over the universe) + differential check with scripted readers",
     design_ref="§5 C11")
 CLAIMS['C12'] = dict(
@@ -199,7 +199,7 @@ CLAIMS['C12'] = dict(
           "chunk patterns x interrupts x a stop (Ok(0) or hard failure, 7 kinds) at EVERY offset 0..len x fixed "
           "buffers of EVERY capacity 0..len+1 x object_length, std and no_std io; oracle: delivered bytes are the "
           "first k bytes of the encoding and the error is unchanged. Partial: writers outside the script language "
-          "(returning more than given, Interrupted forever) are not modelled."),
+          "(returning more than given, Interrupted forever) are not modelled. C12_any_writer: for ANY writer honouring the io::Write contract (a successful write_all delivered its buffer, a failed one a prefix of it) what reaches the sink is always a prefix of the encoding in order, and on Ok exactly the encoding; Vec and fixed buffers are instances."),
     technique="Lean 4 proof (trace semantics; closed forms for fixed buffers and the length writer) + differential check with scripted writers",
     design_ref="§5 C12")
 
@@ -274,7 +274,7 @@ CLAIMS['C07'] = dict(
           "panic, largest single allocation and peak live bytes bounded by 1 MiB + 64 KiB + 4*size_of + 160*|input|; "
           "the input is written to disk before decoding so that an abort is reported with its culprit. Partial: the "
           "composed memory bound over arbitrary nestings is measured, not proved; stack depth is bounded by the type "
-          "(the universe is recursion-free), recursive user types are outside the statement."),
+          "(the universe is recursion-free), recursive user types are outside the statement. Composed bound for the whole universe (C07_value_size_bound / C07_value_size_linear, work_all by induction over the universe): for every type all of whose collection elements occupy at least one byte on the wire (occ, at every nesting level) the decoded value - every element of every nested collection, every string byte - has at most costA t + costB t * (bytes consumed) nodes with type-only constants, so elements decoded and memory retained are linear in the input."),
     technique="Lean 4 proof (totality and consumption by induction over the universe; allocation rules of the two sizing sites) + differential check under a counting allocator",
     design_ref="§5 C07")
 
